@@ -51,13 +51,25 @@ theorem pendList_set_none (r : Reg) (i : Nat) (h0 : pendList r = []) :
   · exact h0 a h'
   · subst h'; rfl
 
+theorem pendList_set_none_mem (r : Reg) (i y : Nat)
+    (h : y ∈ pendList { r with pending := r.pending.setIfInBounds i none }) : y ∈ pendList r := by
+  unfold pendList at h ⊢
+  have h' : y ∈ (r.pending.setIfInBounds i none).toList.filterMap id := h
+  rw [Array.toList_setIfInBounds, List.mem_filterMap] at h'
+  obtain ⟨a, ha, hid⟩ := h'
+  rw [List.mem_filterMap]
+  rcases List.mem_or_eq_of_mem_set ha with h1 | h1
+  · exact ⟨a, h1, hid⟩
+  · subst h1; simp at hid
+
 theorem wfp_set_pending (c : Cfg) (r : Reg) (L : Ledger) (h : WFP c r L) (i : Nat) :
     WFP c { r with pending := r.pending.setIfInBounds i none } L :=
-  ⟨h.core.of_slots rfl HEq.rfl, h.count, h.room, ⟨h.bounded.bounds, h.bounded.aligned, h.bounded.zero⟩, h.nodup,
-   fun h0 => pendList_set_none r i (h.pzero h0)⟩
+  ⟨h.core.of_slots rfl HEq.rfl, h.count, h.room, ⟨h.bounded.bounds, h.bounded.aligned, h.bounded.zero, h.bounded.nonnull⟩, h.nodup,
+   fun h0 => pendList_set_none r i (h.pzero h0), fun h0 => h.pnz (pendList_set_none_mem r i 0 h0)⟩
 
 /-- GC_Rem_Ptr, positional version -/
-theorem remPtr_absO (c : Cfg) (r : Reg) (L : Ledger) (hwf : WFP c r L) (x : Nat) (hx0 : x ≠ 0 ∨ r.pending = #[]) :
+theorem remPtr_absO (c : Cfg) (r : Reg) (L : Ledger) (hwf : WFP c r L) (x : Nat)
+    (hx00 : c.remNullGuard = true ∨ x ≠ 0 ∨ r.pending = #[]) :
     ∃ r1 fi, remPtr c r x = some (r1, fi) ∧ r1.running = r.running ∧
       ((∃ i, r.pending.toList.findIdx? (fun y => y == some x) = some i ∧ fi = some x ∧
           r1.pending.toList = r.pending.toList.set i none ∧ WFP c r1 L) ∨
@@ -66,7 +78,7 @@ theorem remPtr_absO (c : Cfg) (r : Reg) (L : Ledger) (hwf : WFP c r L) (x : Nat)
        (r.pending.toList.findIdx? (fun y => y == some x) = none ∧ x ∉ L.map Prod.fst ∧ fi = none ∧ r1 = r)) := by
   have hconv : r.pending.toList.findIdx? (fun y => y == some x) = r.pending.findIdx? (fun y => y == some x) := by
     cases r.pending; simp
-  obtain ⟨r1, fi, h1, h2, _, h4⟩ := remPtr_abs c r L hwf x hx0
+  obtain ⟨r1, fi, h1, h2, _, h4⟩ := remPtr_abs c r L hwf x hx00
   refine ⟨r1, fi, h1, h2, ?_⟩
   -- recompute which branch was taken from the positional search
   unfold remPtr at h1
@@ -87,13 +99,27 @@ theorem remPtr_absO (c : Cfg) (r : Reg) (L : Ledger) (hwf : WFP c r L) (x : Nat)
     · rw [hp0] at hx; simp at hx
     · cases hfi
     · exact Or.inr (Or.inr ⟨hnone, hxL, rfl, rfl⟩)
-  · cases hfi : r.pending.findIdx? (fun y => y == some x) with
+  · by_cases hg : (c.remNullGuard && x == 0) = true
+    · -- `ptr is NULL`: returned at once
+      rw [dif_pos hn, if_pos hg] at h1
+      simp only [Option.some.injEq, Prod.mk.injEq] at h1
+      obtain ⟨e1, e2⟩ := h1
+      subst e1; subst e2
+      have hx0 : x = 0 := by simpa using (Bool.and_eq_true_iff.1 hg).2
+      have hnone : r.pending.toList.findIdx? (fun y => y == some x) = none :=
+        findIdx?_none_of_not_mem _ x (by rw [hx0]; exact hwf.pnz)
+      rcases h4 with ⟨hx, _⟩ | ⟨_, _, hfi, _⟩ | ⟨_, hxL, _, _⟩
+      · rw [hx0] at hx; exact absurd hx hwf.pnz
+      · cases hfi
+      · exact Or.inr (Or.inr ⟨hnone, hxL, rfl, rfl⟩)
+    have hx0 := cmdOk_past_guard hx00 hg
+    cases hfi : r.pending.findIdx? (fun y => y == some x) with
     | some i =>
       have hxne : x ≠ 0 := by
         rcases hx0 with h | h
         · exact h
         · rw [h] at hfi; simp at hfi
-      rw [dif_pos hn, findIdx_pend r x hx0, hfi] at h1
+      rw [dif_pos hn, if_neg hg, findIdx_pend r x hx0, hfi] at h1
       simp only [if_neg hxne, Option.some.injEq, Prod.mk.injEq] at h1
       obtain ⟨e1, e2⟩ := h1
       subst e1; subst e2
@@ -115,8 +141,8 @@ theorem rem_tailO (c : Cfg) (g : GoodCfg c) (r2 : Reg) (L : Ledger) (h : WFP c r
   exact ⟨r3, hr3, hw, hmeta.pending, hrun⟩
 
 /-- nested removals refine the positional abstract recursion, for every `K` and every fuel -/
-theorem exec_simO (c : Cfg) (g : GoodCfg c) (K : Nat → List Nat) (hK : NoNull K) :
-    ∀ (fuel : Nat) (r : Reg) (a : AbsO) (cmd : Cmd), WFP c r a.1 → r.pending.toList = a.2 → CmdOk r cmd →
+theorem exec_simO (c : Cfg) (g : GoodCfg c) (K : Nat → List Nat) (hK : NullOk c K) :
+    ∀ (fuel : Nat) (r : Reg) (a : AbsO) (cmd : Cmd), WFP c r a.1 → r.pending.toList = a.2 → CmdOk c r cmd →
       SimO c r.running (exec c K fuel r cmd) (absExecO K r.running fuel a cmd) := by
   intro fuel
   induction fuel with
@@ -127,7 +153,8 @@ theorem exec_simO (c : Cfg) (g : GoodCfg c) (K : Nat → List Nat) (hK : NoNull 
     | fin p =>
       rw [exec_fin_succ]
       simp only [absExecO]
-      have hfold : ∀ (l : List Nat) (x : Option (Reg × List Nat)) (y : Option (AbsO × List Nat)), (∀ z ∈ l, z ≠ 0) →
+      have hfold : ∀ (l : List Nat) (x : Option (Reg × List Nat)) (y : Option (AbsO × List Nat)),
+          (c.remNullGuard = true ∨ ∀ z ∈ l, z ≠ 0) →
           SimO c r.running x y →
           SimO c r.running
             (l.foldl (fun (acc : Option (Reg × List Nat)) y =>
@@ -150,13 +177,13 @@ theorem exec_simO (c : Cfg) (g : GoodCfg c) (K : Nat → List Nat) (hK : NoNull 
         | cons z l ihl =>
           intro x y hz h
           simp only [List.foldl_cons]
-          apply ihl _ _ (fun w hw => hz w (List.mem_cons_of_mem _ hw))
+          apply ihl _ _ (hz.imp id (fun h w hw => h w (List.mem_cons_of_mem _ hw)))
           match x, y, h with
           | none, none, _ => simp [SimO]
           | some (r', t), some (a', t'), h =>
             obtain ⟨h1, h2, h3, h4⟩ := h
             subst h1
-            have := ih r' a' (.rem z) h2 h3 (Or.inl (hz z List.mem_cons_self))
+            have := ih r' a' (.rem z) h2 h3 (hz.elim Or.inl (fun h => Or.inr (Or.inl (h z List.mem_cons_self))))
             rw [h4] at this
             simp only []
             match hx : exec c K fuel r' (.rem z), hy : absExecO K r.running fuel a' (.rem z), this with
@@ -166,7 +193,7 @@ theorem exec_simO (c : Cfg) (g : GoodCfg c) (K : Nat → List Nat) (hK : NoNull 
               subst e1
               exact ⟨rfl, e2, e3, e4⟩
       have h0 : SimO c r.running (some (r, [])) (some (a, [])) := ⟨rfl, hwf, hp, rfl⟩
-      have := hfold (K p) _ _ (fun z hz hz0 => hK p (hz0 ▸ hz)) h0
+      have := hfold (K p) _ _ (hK.imp id (fun hK z hz hz0 => hK p (hz0 ▸ hz))) h0
       match hx : (K p).foldl _ (some (r, [])), hy : (K p).foldl _ (some (a, [])), this with
       | none, none, _ => simp [SimO]
       | some (r', t), some (a', t'), h' =>
@@ -314,7 +341,7 @@ def absFinLoop (K : Nat → List Nat) (running : Bool) : (todo i : Nat) → AbsO
     | _ => absFinLoop K running todo (i+1) a t
 
 /-- **the finalisation loop of GC_Sweep refines the abstract loop and always answers** -/
-theorem finaliseLoop_simO (c : Cfg) (g : GoodCfg c) (K : Nat → List Nat) (hK : NoNull K) :
+theorem finaliseLoop_simO (c : Cfg) (g : GoodCfg c) (K : Nat → List Nat) (hK : NullOk c K) :
     ∀ (todo i : Nat) (r : Reg) (a : AbsO) (t : List Nat), WFP c r a.1 → r.pending.toList = a.2 →
       ∃ r' a' t', finaliseLoop c K todo i r t = some (r', t') ∧ absFinLoop K r.running todo i a t = some (a', t') ∧
         WFP c r' a'.1 ∧ r'.pending.toList = a'.2 ∧ r'.running = r.running := by
@@ -357,7 +384,7 @@ theorem finaliseLoop_simO (c : Cfg) (g : GoodCfg c) (K : Nat → List Nat) (hK :
 /-- **GC_Sweep with arbitrary destructors.**  The compaction reclaims the unmarked non-root objects, listing them in some
     order `order` (each once); the finalisation loop then refines `absFinLoop` from (kept ledger, `order`); the sweep always
     answers, and the final state is well formed (pending list empty) for the abstract result. -/
-theorem gcSweep_simO (c : Cfg) (g : GoodCfg c) (K : Nat → List Nat) (hK : NoNull K) (r : Reg) (L : Ledger) (mk : Nat → Bool → Bool)
+theorem gcSweep_simO (c : Cfg) (g : GoodCfg c) (K : Nat → List Nat) (hK : NullOk c K) (r : Reg) (L : Ledger) (mk : Nat → Bool → Bool)
     (h : Core c r L mk) (hc : r.nitems = occ r.slots) (hroom : Room r) (hb : Bounded r L) (hnd : (L.map Prod.fst).Nodup) :
     ∃ (order : List Nat) (r' : Reg) (a' : AbsO) (t : List Nat),
       gcSweep c K r = some (r', t) ∧
@@ -424,7 +451,8 @@ theorem gcSweep_simO (c : Cfg) (g : GoodCfg c) (K : Nat → List Nat) (hK : NoNu
     obtain ⟨q, hq, _⟩ := ((hremoved e).1 he).1
     omega
   have hw2 : WFP c { r1 with mitems := c.mitemsOf r1.nitems } (collectBy L mk) := by
-    refine ⟨hcore1.of_slots rfl HEq.rfl, ?_, hroom1, ⟨?_, ?_, ?_⟩, collectBy_nodup L mk hnd, ?_⟩
+    refine ⟨hcore1.of_slots rfl HEq.rfl, ?_, hroom1, ⟨?_, ?_, ?_, fun p b hp => hb.nonnull p b (collectBy_sub L mk _ hp)⟩,
+      collectBy_nodup L mk hnd, ?_, ?_⟩
     · show r1.nitems = occ r1.slots; rw [hmeta1.nitems, hocc1]; exact hcA
     · intro p b hp; show r1.minptr ≤ p ∧ p ≤ r1.maxptr; rw [hmeta1.minptr, hmeta1.maxptr]
       exact hb.bounds p b (collectBy_sub L mk _ hp)
@@ -436,6 +464,18 @@ theorem gcSweep_simO (c : Cfg) (g : GoodCfg c) (K : Nat → List Nat) (hK : NoNu
       rw [hmeta1.pending]
       show ((removed.map (fun x => some x.key)).toArray).toList.filterMap id = []
       rw [hrem0 (hz1 h0)]; rfl
+    · -- what the sweep lists are registered objects: none of them is NULL
+      intro h0
+      unfold pendList at h0
+      have h0' : 0 ∈ r1.pending.toList.filterMap id := h0
+      rw [hmeta1.pending] at h0'
+      have h0'' : 0 ∈ ((removed.map (fun x => some x.key)).toArray).toList.filterMap id := h0'
+      simp only [List.mem_filterMap, List.mem_map, id] at h0''
+      obtain ⟨a, ⟨e, he, hea⟩, ha⟩ := h0''
+      subst hea
+      have hk : e.key = 0 := by simpa using ha
+      obtain ⟨h1, _, _⟩ := (h.ents e).1 ((hremoved e).1 he).1
+      exact hb.nonnull _ _ h1 hk
   have hp2 : ({ r1 with mitems := c.mitemsOf r1.nitems } : Reg).pending.toList = (removed.map (fun x => x.key)).map some := by
     show r1.pending.toList = _
     rw [hmeta1.pending]
@@ -456,7 +496,7 @@ theorem gcSweep_simO (c : Cfg) (g : GoodCfg c) (K : Nat → List Nat) (hK : NoNu
     have : ({ r1 with mitems := c.mitemsOf r1.nitems } : Reg).running = r.running := by
       show r1.running = r.running; rw [hmeta1.running]
     rw [← this]; exact habs
-  · exact ⟨hw3.core.of_slots rfl HEq.rfl, hw3.count, hw3.room, ⟨hw3.bounded.bounds, hw3.bounded.aligned, hw3.bounded.zero⟩,
+  · exact ⟨hw3.core.of_slots rfl HEq.rfl, hw3.count, hw3.room, ⟨hw3.bounded.bounds, hw3.bounded.aligned, hw3.bounded.zero, hw3.bounded.nonnull⟩,
       hw3.nodup, rfl⟩
   · show r3.running = r.running
     rw [hrun3]; show r1.running = r.running; rw [hmeta1.running]
@@ -544,7 +584,7 @@ theorem collectBy_eq_collectL (L : Ledger) (mk0 : Nat → Bool → Bool) (marks 
   rw [← Bool.or_assoc, hmk0]
 
 /-- a full collection with destructors `K` from a well-formed state -/
-theorem collect_simO (c : Cfg) (g : GoodCfg c) (K : Nat → List Nat) (hK : NoNull K) (r : Reg) (L : Ledger) (hwf : WF c r L) (roots : Bool)
+theorem collect_simO (c : Cfg) (g : GoodCfg c) (K : Nat → List Nat) (hK : NullOk c K) (r : Reg) (L : Ledger) (hwf : WF c r L) (roots : Bool)
     (marks : List Nat) :
     ∃ r1 r' L' t, markAll c (if roots then markRoots r else r) marks = some r1 ∧ gcSweep c K r1 = some (r', t) ∧
       SweepL K r.running L marks L' ∧ WF c r' L' ∧ r'.running = r.running := by
@@ -557,7 +597,7 @@ theorem collect_simO (c : Cfg) (g : GoodCfg c) (K : Nat → List Nat) (hK : NoNu
     | false => exact ⟨noMark, hwf.core, hwf.count, hwf.room, hwf.bounded, rfl, SameMeta.refl r, by intro q b; simp [noMark]⟩
     | true =>
       obtain ⟨h1, h2, h3, h4⟩ := markRoots_core c r L noMark hwf.core
-      refine ⟨_, h1, ?_, ?_, ⟨hwf.bounded.bounds, hwf.bounded.aligned, hwf.bounded.zero⟩, rfl, h3, ?_⟩
+      refine ⟨_, h1, ?_, ?_, ⟨hwf.bounded.bounds, hwf.bounded.aligned, hwf.bounded.zero, hwf.bounded.nonnull⟩, rfl, h3, ?_⟩
       · show r.nitems = occ (markRoots r).slots; rw [h2]; exact hwf.count
       · exact hwf.room
       · intro q b; cases b <;> simp [noMark]
@@ -566,7 +606,7 @@ theorem collect_simO (c : Cfg) (g : GoodCfg c) (K : Nat → List Nat) (hK : NoNu
   have hc1 : r1.nitems = occ r1.slots := by rw [hmeta1.nitems, hocc1]; exact hc0
   have hroom1 : Room r1 := by unfold Room at *; rw [hmeta1.nitems, hn1]; exact hroom0
   have hb1 : Bounded r1 L := by
-    refine ⟨?_, hb0.aligned, ?_⟩
+    refine ⟨?_, hb0.aligned, ?_, hb0.nonnull⟩
     · intro p b hp; rw [hmeta1.minptr, hmeta1.maxptr]; exact hb0.bounds p b hp
     · intro h0; rw [hmeta1.minptr, hmeta1.maxptr]; exact hb0.zero (by rw [← hn1]; exact h0)
   obtain ⟨order, r', a', t, hsw, habs, hwf', hrun', hnd, hmem⟩ := gcSweep_simO c g K hK r1 L _ hcore1 hc1 hroom1 hb1 hwf.nodup
@@ -577,7 +617,7 @@ theorem collect_simO (c : Cfg) (g : GoodCfg c) (K : Nat → List Nat) (hK : NoNu
 
 /-- **one operation, destructors `K`**: from a well-formed state the model answers, some ledger transition explains the
     operation, and the new state is well formed for the new ledger -/
-theorem stepK_wf (c : Cfg) (g : GoodCfg c) (K : Nat → List Nat) (hK : NoNull K) (r : Reg) (L : Ledger) (hwf : WF c r L) (op : Op) (hok : okOp L op) :
+theorem stepK_wf (c : Cfg) (g : GoodCfg c) (K : Nat → List Nat) (hK : NullOk c K) (r : Reg) (L : Ledger) (hwf : WF c r L) (op : Op) (hok : okOp L op) :
     ∃ r' L', stepK c K r op = some r' ∧ LedgerK K r L op L' ∧ WF c r' L' := by
   cases op with
   | new p root marks =>
@@ -601,7 +641,7 @@ theorem stepK_wf (c : Cfg) (g : GoodCfg c) (K : Nat → List Nat) (hK : NoNull K
       obtain ⟨s, hs, invs, mems, occs⟩ := setPtr_spec c r1.slots hcore1.inv p root hfresh1
         (by rw [hocc1', ← hwf.count]; omega)
       have wf2 : WF c { r1 with slots := s } ((p, root) :: L) := by
-        refine ⟨⟨invs, ?_⟩, ?_, Or.inl hroom1, ⟨?_, ?_, ?_⟩, ?_, ?_⟩
+        refine ⟨⟨invs, ?_⟩, ?_, Or.inl hroom1, ⟨?_, ?_, ?_, ?_⟩, ?_, ?_⟩
         · intro e
           show Mem s e ↔ _
           rw [mems e]
@@ -637,6 +677,11 @@ theorem stepK_wf (c : Cfg) (g : GoodCfg c) (K : Nat → List Nat) (hK : NoNull K
         · intro h0
           have : r1.n = 0 := h0
           omega
+        · intro q b hq
+          rcases List.mem_cons.1 hq with h | h
+          · have : q = p := congrArg Prod.fst h
+            rw [this]; exact hok.2.2
+          · exact hwf.bounded.nonnull q b h
         · show (p :: L.map Prod.fst).Nodup
           exact List.nodup_cons.2 ⟨hok.1, hwf.nodup⟩
         · show r1.pending = #[]
@@ -648,16 +693,18 @@ theorem stepK_wf (c : Cfg) (g : GoodCfg c) (K : Nat → List Nat) (hK : NoNull K
         rw [hni1, hmeta1.mitems]
       have hnr : (!r.running) = false := by rw [hrun]; rfl
       by_cases h : r.nitems + 1 > r.mitems
-      · obtain ⟨ra, r', L', t, hra, hsw, hL', hwf', _⟩ := collect_simO c g K hK _ _ wf2 true marks
+      · have hnz2 : ({ r1 with slots := s } : Reg).nitems ≠ 0 := by show r1.nitems ≠ 0; omega
+        obtain ⟨wf3, hmeta3, _⟩ := markStart_wf c _ _ wf2
+        obtain ⟨ra, r', L', t, hra, hsw, hL', hwf', _⟩ := collect_simO c g K hK _ _ wf3 true marks
         simp only [if_true] at hra
-        rw [hrun2] at hL'
+        rw [hmeta3.running, hrun2] at hL'
         refine ⟨r', L', ?_, LedgerK.new_collect p root marks L' hrun h hL', hwf'⟩
         unfold stepK gcSet
         rw [hnr]
         simp only [Bool.false_eq_true, if_false]
         rw [hr1]; simp only []
         rw [hs]; simp only []
-        rw [if_pos (hth.2 h), hra]
+        rw [if_pos (hth.2 h), gcMark_eq c _ marks hnz2, hra]
         simp only [hsw, Option.map]
       · refine ⟨_, _, ?_, LedgerK.new_plain p root marks hrun h, wf2⟩
         unfold stepK gcSet
@@ -679,7 +726,7 @@ theorem stepK_wf (c : Cfg) (g : GoodCfg c) (K : Nat → List Nat) (hK : NoNull K
       have hfuel := nestFuel_eq c r (L, []) hwf.toWFP hp0
       obtain ⟨a', t, ha, _, hlen⟩ := absExecO_ok K true (absFuel (L, [])) (L, []) (.rem p) (by
         simp only [AbsO.size, absFuel, List.countP_nil, List.length_nil]; omega)
-      have hsim := exec_simO c g K hK (nestFuel r) r (L, []) (.rem p) hwf.toWFP hp0 (Or.inr hwf.pend)
+      have hsim := exec_simO c g K hK (nestFuel r) r (L, []) (.rem p) hwf.toWFP hp0 (Or.inr (Or.inr hwf.pend))
       rw [hrun, hfuel, ha] at hsim
       match hx : exec c K (absFuel (L, [])) r (.rem p), hsim with
       | some (r', t'), hs =>
